@@ -93,11 +93,14 @@ Qed.
 Lemma keys_unique_gc ms now st : keys_unique st -> keys_unique (cache_gc ms now st).
 Proof. unfold keys_unique, cache_gc. cbn. apply filter_keys_NoDup. Qed.
 
-Lemma gc_refines ms now st : keys_unique st ->
-  exists ev, same_cache (abs_cache (cache_gc ms now st)) (drop_keys ev (abs_cache st)).
+(** ... namely the keys of the entries that are [evictable] at [now] *)
+Definition gc_evicts (ms now : Z) (st : cstate) : list nat :=
+  map (fun p => N.to_nat (fst p)) (filter (fun p => evictable ms now (snd p)) (cs_entries st)).
+
+Lemma gc_refines_ev ms now st : keys_unique st ->
+  same_cache (abs_cache (cache_gc ms now st)) (drop_keys (gc_evicts ms now st) (abs_cache st)).
 Proof.
-  intros U.
-  exists (map (fun p => N.to_nat (fst p)) (filter (fun p => evictable ms now (snd p)) (cs_entries st))).
+  intros U. unfold gc_evicts.
   unfold abs_cache, cache_gc, keys_unique in *. cbn [cs_entries].
   set (ev := map _ _).
   assert (Hev : forall k e, In (k, e) (cs_entries st) -> (mem (N.to_nat k) ev = true <-> evictable ms now e = true)).
@@ -125,6 +128,10 @@ Proof.
     { apply not_true_is_false. intros M. apply Hev in M. discriminate. }
     rewrite M. cbn. destruct (Nat.eqb x (N.to_nat k)); [reflexivity | apply IH; assumption].
 Qed.
+
+Lemma gc_refines ms now st : keys_unique st ->
+  exists ev, same_cache (abs_cache (cache_gc ms now st)) (drop_keys ev (abs_cache st)).
+Proof. intros U. exists (gc_evicts ms now st). now apply gc_refines_ev. Qed.
 
 (** * processJob against the worker actions [ACheck] / [AEnd] *)
 
